@@ -6,6 +6,7 @@ import (
 	"math/rand"
 	"strings"
 	"sync"
+	"sync/atomic"
 	"time"
 
 	"github.com/yandex/mysync/internal/config"
@@ -17,16 +18,17 @@ import (
 // once clean, resetup file otherwise.
 
 type c11Spec struct {
-	Family   string `json:"family"` // lifecycle stale_master failover_return
-	N        int    `json:"n_ha"`
-	Relation string `json:"relation"`    // behind equal ahead diverged
-	Repl     string `json:"replication"` // running stopped io_error none
-	RO       bool   `json:"read_only"`
-	Resetup  bool   `json:"resetup_file_present"`
-	Stuck    bool   `json:"stuck_commits"`
-	Second   bool   `json:"switch_to_marked_host"`
-	Tool     bool   `json:"resetup_tool"`
-	SlowOwn  bool   `json:"own_statements_take_60ms"`
+	Family     string `json:"family"` // lifecycle stale_master failover_return
+	N          int    `json:"n_ha"`
+	Relation   string `json:"relation"`    // behind equal ahead diverged
+	Repl       string `json:"replication"` // running stopped io_error none
+	RO         bool   `json:"read_only"`
+	Resetup    bool   `json:"resetup_file_present"`
+	Stuck      bool   `json:"stuck_commits"`
+	Second     bool   `json:"switch_to_marked_host"`
+	Tool       bool   `json:"resetup_tool"`
+	SlowOwn    bool   `json:"own_statements_take_60ms"`
+	StartFails bool   `json:"first_start_replica_on_the_stale_master_fails"`
 }
 
 func c11Gen(seed int64, idx int) c11Spec {
@@ -44,6 +46,7 @@ func c11Gen(seed int64, idx int) c11Spec {
 	// the marked host's daemon gets its answers slowly: clients commit and the replica applies between two reads of
 	// one recovery check
 	sp.SlowOwn = sp.Family == "lifecycle" && r.Intn(2) == 0
+	sp.StartFails = sp.Family == "stale_master" && (idx/5)%2 == 0
 	return sp
 }
 
@@ -304,6 +307,20 @@ func c11Run(u *Unit) {
 				time.Sleep(3 * time.Second)
 				w.Restart(h)
 				sc.Cover("stale-master-evicted-first")
+			}
+			if sp.StartFails {
+				// the turn of the stale master fails at its last statement, once: on the retry the host looks like a
+				// stopped replica, not like a stale master
+				var once atomic.Bool
+				w.Lock()
+				w.Fault = func(c *world.StmtCtx) world.FaultAction {
+					if c.Class == "start_replica" && c.Host == h && strings.HasPrefix(c.Caller, "mysync_") && once.CompareAndSwap(false, true) {
+						sc.Cover("turn-of-the-stale-master-failed-at-start")
+						return world.FaultAction{Kind: "fail", Errno: 1872}
+					}
+					return world.FaultAction{}
+				}
+				w.Unlock()
 			}
 			w.Manual(h, "replication configuration lost", func(x *world.Server) {
 				x.Source, x.IORun, x.SQLRun = "", false, false
